@@ -63,6 +63,9 @@ type Opts struct {
 	// before it runs, so that a crash of the whole process (a fatal
 	// runtime error cannot be trapped) still leaves a replayable case.
 	Journal bool
+	// ShrinkTime overrides rapid's shrinking budget (default 20s); checks
+	// whose failing cases leave runaway work behind keep it short.
+	ShrinkTime string
 }
 
 type stats struct {
@@ -375,7 +378,11 @@ func RunWith[C any](t *testing.T, r *Rec, gen func(*rapid.T) C, check func(C) Ve
 	flag.Set("rapid.checks", strconv.Itoa(n))
 	flag.Set("rapid.seed", strconv.FormatUint(seed, 10))
 	flag.Set("rapid.nofailfile", "true")
-	flag.Set("rapid.shrinktime", "20s")
+	if o.ShrinkTime != "" {
+		flag.Set("rapid.shrinktime", o.ShrinkTime)
+	} else {
+		flag.Set("rapid.shrinktime", "20s")
+	}
 	rapid.Check(t, func(rt *rapid.T) {
 		c := gen(rt)
 		raw, err := json.Marshal(c)
